@@ -872,8 +872,8 @@ def main():
         write_evidence(prop, tier, seed, [], time.time() - t0, cg_s, 0, [], [], [err])
         return 2
     print(f"[{prop}] codegen {cg_s:.0f}s; running CBMC", flush=True)
-    # memory-aware scheduling: at most `jobs` at once and at most 52 GB of declared caps
-    jobs = a.jobs or 6
+    # memory-aware scheduling: at most `jobs` at once and at most 60 GB of declared caps (caps, not usage: quick-tier harnesses peak at 2-10 GB)
+    jobs = a.jobs or 8
     results = []
     lock = threading.Condition()
     used = {"mem": 0}
@@ -881,7 +881,7 @@ def main():
     def task(item):
         pretty, fn, spec = item
         with lock:
-            while used["mem"] + spec.mem > 52 and used["mem"] > 0:
+            while used["mem"] + spec.mem > 60 and used["mem"] > 0:
                 lock.wait()
             used["mem"] += spec.mem
         try:
